@@ -165,6 +165,104 @@ theorem C06_decCtr_step (d : Device) (m : Msg) :
         cases p <;> simp
     · left; rw [handleRequest_exhausted d fr s n p t hm]
 
+/-! ### History level: no ciphertext is ever accepted twice
+
+Over ANY history of public API calls of both roles (requests handled, responses prepared, signed and
+retrieved, failed decryptions, store/restore cycles, in any order and of any length) the counters of
+the ciphertexts the device accepted form a strictly increasing sequence.  A ciphertext carries one
+counter (it is bound into the IV), so a ciphertext that was accepted once is never accepted again,
+and two accepted ciphertexts were accepted in the order of their counters (no reordering). -/
+
+/-- the counter of the ciphertext, if `handle_request` accepts it in state `d` -/
+def acceptedCtr (d : Device) : Msg → Option Nat
+  | .ct fr s n p t => match (d.handleRequest (.ct fr s n p t)).2 with
+    | .accepted _ => some n
+    | _ => none
+  | _ => none
+
+/-- counters of all ciphertexts the device accepts along a history, in order of acceptance -/
+def devAccepted (w : World) : List Op → List Nat
+  | [] => []
+  | .handleRequest m :: ops => (acceptedCtr w.dev m).toList ++ devAccepted (w.step (.handleRequest m)) ops
+  | op :: ops => devAccepted (w.step op) ops
+
+theorem acceptedCtr_some (d : Device) (m : Msg) (n : Nat) (h : acceptedCtr d m = some n) :
+    n = d.decCtr.toNat + 1 ∧ (d.handleRequest m).1.decCtr.toNat = n := by
+  cases m with
+  | garbage => simp [acceptedCtr] at h
+  | noData => simp [acceptedCtr] at h
+  | ct fr s k p t =>
+    cases hm : atMax d.decCtr
+    · cases hacc : accepts true d.sess (bump d.decCtr) fr s k t
+      · simp [acceptedCtr, handleRequest_rej d fr s k p t hm hacc] at h
+      · have hb := bump_toNat _ (not_atMax _ hm)
+        have hk := ((accepts_iff true d.sess (bump d.decCtr) fr s k t).mp hacc).2.2.1
+        simp only [acceptedCtr, handleRequest_acc d fr s k p t hm hacc, Option.some.injEq] at h
+        subst h
+        refine ⟨by omega, ?_⟩
+        simp only [Device.handleRequest, hm, hacc, if_true, Bool.false_eq_true, if_false]
+        cases p <;> simp [hk]
+    · simp [acceptedCtr, handleRequest_exhausted d fr s k p t hm] at h
+
+theorem withDev_dev (w : World) (d : Device) : (w.withDev d).dev = d := by
+  unfold World.withDev; split <;> rfl
+
+theorem step_decCtr_mono (w : World) (op : Op) : w.dev.decCtr.toNat ≤ (w.step op).dev.decCtr.toNat := by
+  cases op with
+  | newRequest => simp only [World.step]; split <;> exact Nat.le_refl _
+  | handleRequest m =>
+    simp only [World.step, withDev_dev]
+    rcases C06_decCtr_step w.dev m with h | h
+    · rw [h]; exact Nat.le_refl _
+    · omega
+  | prepare docs => simp [World.step, withDev_dev, Device.prepare]
+  | getNext => exact Nat.le_refl _
+  | submit sig =>
+    simp only [World.step, withDev_dev, Device.submit]
+    split <;> simp
+  | responseReady => exact Nat.le_refl _
+  | retrieve => simp only [World.step, Device.retrieve]; split <;> exact Nat.le_refl _
+  | handleResponse m => exact Nat.le_refl _
+  | restoreDevice => rw [step_restoreDevice]; exact Nat.le_refl _
+  | restoreReader => rw [step_restoreReader]; exact Nat.le_refl _
+
+theorem devAccepted_gt (w : World) (ops : List Op) : ∀ n ∈ devAccepted w ops, w.dev.decCtr.toNat < n := by
+  induction ops generalizing w with
+  | nil => intro n h; cases h
+  | cons op ops ih =>
+    intro n hn
+    have hmono := step_decCtr_mono w op
+    cases op with
+    | handleRequest m =>
+      simp only [devAccepted, List.mem_append, Option.mem_toList] at hn
+      rcases hn with h | h
+      · have := (acceptedCtr_some w.dev m n h).1; omega
+      · have := ih _ n h; omega
+    | _ => (simp only [devAccepted] at hn; have := ih _ n hn; omega)
+
+theorem C06_accepted_counters_strictly_increase (w : World) (ops : List Op) :
+    (devAccepted w ops).Pairwise (· < ·) := by
+  induction ops generalizing w with
+  | nil => exact List.Pairwise.nil
+  | cons op ops ih =>
+    cases op with
+    | handleRequest m =>
+      simp only [devAccepted]
+      cases h : acceptedCtr w.dev m with
+      | none => simpa using ih _
+      | some n =>
+        simp only [Option.toList_some, List.singleton_append, List.pairwise_cons]
+        refine ⟨fun k hk => ?_, ih _⟩
+        have h1 := devAccepted_gt _ ops k hk
+        have h2 := (acceptedCtr_some w.dev m n h).2
+        simp only [World.step, withDev_dev] at h1
+        omega
+    | _ => (simp only [devAccepted]; exact ih _)
+
+/-- consequently: no counter — hence no ciphertext — is accepted twice in any history -/
+theorem C06_no_ciphertext_accepted_twice (w : World) (ops : List Op) : (devAccepted w ops).Nodup :=
+  (C06_accepted_counters_strictly_increase w ops).imp (fun h => Nat.ne_of_lt h)
+
 /-- non-vacuity: an honest exchange is accepted; the same ciphertext replayed, a modified one,
 one from another session and a reflected one are all rejected and leave the state alone. -/
 example :
@@ -177,5 +275,14 @@ example :
     (w.dev.handleRequest (.ct true 6 2 .request false)).2 = .decryptionError ∧
     (w.dev.handleRequest (.ct false 5 2 .request false)).2 = .decryptionError ∧
     r1.encCtr = 2 := by decide
+
+/-- non-vacuity of the history theorem: two requests accepted, a replay of each and a reordered
+third one in between are not; restores and a full response cycle in between -/
+example :
+    devAccepted (World.established 5)
+      [.handleRequest (.ct true 5 2 .request false), .handleRequest (.ct true 5 2 .request false),
+       .prepare [0], .restoreDevice, .submit 3, .retrieve, .handleRequest (.ct true 5 4 .request false),
+       .handleRequest (.ct true 5 4 .request false), .handleRequest (.ct true 5 2 .request false)] = [2, 4] := by
+  decide
 
 end IsoMdl.Session
